@@ -50,6 +50,20 @@ fn main() {
         println!("{:#?}", r);
         return;
     }
+    if prop == "crash-probe" {
+        std::panic::set_hook(Box::new(|_| {}));
+        if args[2] == "self-inline" {
+            props::c03::crash_probe_self_inline();
+        } else {
+            props::c03::crash_probe(&args[2], args[3].parse().unwrap_or(10));
+        }
+        return;
+    }
+    if prop == "det-dump" {
+        std::panic::set_hook(Box::new(|_| {}));
+        props::c16::det_dump(&args[2], args[3].parse().unwrap_or(1), &args[4]);
+        return;
+    }
     if prop == "debug-gen" {
         debug_gen(args[2].parse().unwrap(), u64::from_str_radix(&args[3], 16).unwrap(), args[4].parse().unwrap());
         return;
@@ -87,6 +101,7 @@ fn main() {
     match prop.as_str() {
         "C01" => props::c01::run(&ctx, &mut model, &mut rep),
         "C02" => props::c02::run(&ctx, &mut model, &mut rep),
+        "C03" => props::c03::run(&ctx, &mut model, &mut rep),
         "C04" => props::c04::run(&ctx, &mut model, &mut rep),
         "C05" => props::c05::run(&ctx, &mut model, &mut rep),
         "C06" => props::c06::run(&ctx, &mut model, &mut rep),
@@ -97,6 +112,7 @@ fn main() {
         "C11" => props::c11::run(&ctx, &mut model, &mut rep),
         "C12" => props::c12::run(&ctx, &mut model, &mut rep),
         "C15" => props::c15::run(&ctx, &mut model, &mut rep),
+        "C16" => props::c16::run(&ctx, &mut model, &mut rep),
         "C17" => props::c17::run(&ctx, &mut model, &mut rep),
         "C18" => props::c18::run(&ctx, &mut model, &mut rep),
         "C19" => props::c19::run(&ctx, &mut model, &mut rep),
